@@ -46,15 +46,24 @@ def _meaning(x):
     return _val(_s(x)) if _is_str(x) else x
 
 
+def _cmp_any(op, a, b):
+    """comparison under a comparator that may be a symbolic string term (the decided constant row picks "=" / "!=")"""
+    if isinstance(op, str):
+        return A.cmp(op, a, b)
+    table = {"<": a < b, "<=": a <= b, "≤": a <= b, ">": a > b, ">=": a >= b, "≥": a >= b, "=": a == b, "==": a == b, "!=": a != b, "≠": a != b}
+    return Or(*[And(op == k, v) for k, v in table.items()])
+
+
 def _post_for(op):
     def post(a, res):
         p = a.props
         left, right = p["left_operand"], p["right_operand"]
         kw = CAP["condition"]
         src_truth = A.cmp(op, _meaning(left), _meaning(right))
-        first = _val(_s(kw["first_signal"]))
+        # a signal read from NO wire (empty network selection) is 0
+        first = 0 if kw.get("first_signal_networks") == set() else _val(_s(kw["first_signal"]))
         second = _val(_s(kw["second_signal"])) if "second_signal" in kw else kw["constant"]
-        em_truth = A.cmp(kw["comparator"], first, second)
+        em_truth = _cmp_any(kw["comparator"], first, second)
         swapped = (not _is_str(left)) and _is_str(right)
         nets = []
         if _is_str(left) or swapped:
@@ -94,7 +103,6 @@ for _op in CMPS:
         params={"self": ty.TObj("PlanEntityEmitter", only=("PlanEntityEmitter",)), "entity": ty.TObj("ExternalDeciderCombinator"), "props": _props(_op)},
         ensures=[(f"emitted condition means `left {_op} right` and each operand keeps its wire selection", _post_for(_op)),
                  ("output signal, mode and constant are the placement's", _out_post)],
-        known={f"emitted condition means `left {_op} right` and each operand keeps its wire selection": [("KF-C01-noopt-constant-comparison", _both_const)]},
         uses={"opaque.Condition": cond_ctor, "opaque.Output": out_ctor, "PlanEntityEmitter._wires_to_network_selection": "skip"},
         properties=("C01", "C07"), min_obligations=4, no_replay=True,
         note=f"operation = {_op}",
@@ -178,6 +186,10 @@ def _row_meaning(row):
 
 
 def _emitted_meaning(kw):
+    if kw.get("first_signal_networks") == _sel_tag(set()) or kw.get("first_signal_networks") == set():
+        f = 0  # read from no wire
+        s = _val(_s(kw["second_signal"])) if "second_signal" in kw else kw["constant"]
+        return _cmp_any(kw["comparator"], f, s)
     f = _val(_s(kw["first_signal"]))
     s = _val(_s(kw["second_signal"])) if "second_signal" in kw else kw["constant"]
     return A.cmp(kw["comparator"], f, s)
@@ -220,7 +232,8 @@ def _signals_nonempty(a):
     return And(*cs) if cs else True
 
 
-_SHAPES = {"sig-const": ((True, False), None), "const-sig": ((False, True), None), "sig-sig": ((True, True), None)}
+_SHAPES = {"sig-const": ((True, False), None), "const-sig": ((False, True), None), "sig-sig": ((True, True), None),
+           "const-const": ((False, False), None)}
 for _op in ["<", "<=", ">", ">=", "==", "!="]:
     for _sn, _sh in _SHAPES.items():
         CONTRACTS.append(Contract(
